@@ -382,6 +382,55 @@ def defaults_tables() -> Dict[str, List[List[str]]]:
     return out
 
 
+def _history(req: Dict[str, Any]) -> Dict[str, Any]:
+    p = Process()
+    outs, states = [], []
+    for op in req["history"]:
+        o = p.apply(op)
+        o.pop("files", None)
+        outs.append(o)
+        states.append(p.observe())
+    res = {"ops": outs, "states": states}
+    if "probe" in req:
+        res["probe"] = p.probe(req["probe"])
+        res["final"] = p.observe()
+    return res
+
+
+def serve():
+    """One request (a history + probe) per line on stdin, one answer per line on stdout.  Every request runs in a
+    child forked from this process, which has imported the package and has never translated anything: the child
+    starts from exactly the state of a newly started interpreter (without paying for the imports again), and what
+    it does is gone when it exits."""
+    logging.disable(logging.CRITICAL)
+    import func_adl_xAOD.atlas.xaod.executor  # noqa
+    import func_adl_xAOD.cms.aod.executor  # noqa
+    import func_adl_xAOD.cms.miniaod.executor  # noqa
+    import func_adl_xAOD.common.meta_data  # noqa
+
+    for line in sys.stdin:
+        line = line.strip()
+        if not line:
+            continue
+        r, w = os.pipe()
+        pid = os.fork()
+        if pid == 0:
+            os.close(r)
+            try:
+                out = json.dumps(_history(json.loads(line)))
+            except BaseException:  # noqa
+                out = json.dumps({"crash": traceback.format_exc()[-1500:]})
+            with os.fdopen(w, "w") as f:
+                f.write(out)
+            os._exit(0)
+        os.close(w)
+        with os.fdopen(r) as f:
+            out = f.read()
+        os.waitpid(pid, 0)
+        sys.stdout.write((out or json.dumps({"crash": "child wrote nothing"})) + "\n")
+        sys.stdout.flush()
+
+
 def main():
     mode = sys.argv[1]
     if mode == "defaults":
@@ -394,21 +443,11 @@ def main():
         r = p.probe(pr)
         print(json.dumps(r))
     elif mode == "history":
-        req = json.loads(sys.stdin.read())
-        p = Process()
-        outs, states = [], []
-        for op in req["history"]:
-            o = p.apply(op)
-            o.pop("files", None)
-            outs.append(o)
-            states.append(p.observe())
-        res = {"ops": outs, "states": states}
-        if "probe" in req:
-            res["probe"] = p.probe(req["probe"])
-            res["final"] = p.observe()
-        print(json.dumps(res))
+        print(json.dumps(_history(json.loads(sys.stdin.read()))))
+    elif mode == "serve":
+        serve()
     else:
-        raise SystemExit("usage: impl.py defaults|fresh|history")
+        raise SystemExit("usage: impl.py defaults|fresh|history|serve")
 
 
 if __name__ == "__main__":
